@@ -687,11 +687,43 @@ func isMillisOfTime(e ast.Expr) bool {
 
 // writeSeq: the sequence of framing operations in a block, in source order (nested blocks inlined).
 func writeSeq(info *types.Info, n ast.Node, buf string) []string {
+	return writeSeqP(nil, info, n, buf, 0)
+}
+
+// writeSeqP additionally follows helpers of the repository that receive the buffer (their framing operations
+// are inlined with the helper's parameters replaced by the caller's arguments).
+func writeSeqP(p *Program, info *types.Info, n ast.Node, buf string, depth int) []string {
 	var out []string
 	ast.Inspect(n, func(x ast.Node) bool {
 		c, ok := x.(*ast.CallExpr)
 		if !ok {
 			return true
+		}
+		if p != nil && depth < 2 && !isCallTo(info, c, "writeCollectionSize", "appendInt", "appendBytes", "Marshal") {
+			if fn := calleeOf(info, c); fn != nil {
+				if callee := p.FuncOf(fn); callee != nil && callee.Decl.Body != nil && callee.Pkg == p.Root {
+					passesBuf := false
+					subst := map[string]string{}
+					k := 0
+					for _, pf := range callee.Decl.Type.Params.List {
+						for _, pn := range pf.Names {
+							if k < len(c.Args) {
+								subst[pn.Name] = exprStr(c.Args[k])
+								if exprStr(c.Args[k]) == buf {
+									passesBuf = true
+								}
+							}
+							k++
+						}
+					}
+					if passesBuf {
+						for _, it := range writeSeqP(p, callee.Pkg.TypesInfo, callee.Decl.Body, subst2(buf, subst), depth+1) {
+							out = append(out, substIdents(it, subst))
+						}
+						return false
+					}
+				}
+			}
 		}
 		switch {
 		case isCallTo(info, c, "writeCollectionSize") && len(c.Args) == 3:
@@ -727,7 +759,7 @@ func c12r5(p *Program, r *Report) {
 		if loop == nil {
 			r.Unresolved("marshalList: element loop not found")
 		} else {
-			seq := writeSeq(info, loop.Body, "buf")
+			seq := writeSeqP(p, info, loop.Body, "buf", 0)
 			r.Check(strings.Join(seq, " ") == "size(itemLen) bytes(item)", loop, "marshalList element framing", strings.Join(seq, " "), "a list element is framed as `"+strings.Join(seq, " ")+"`, not [size][bytes]")
 			// count before the loop, equal to the number of elements iterated
 			var before []string
@@ -757,7 +789,7 @@ func c12r5(p *Program, r *Report) {
 		if loop == nil {
 			r.Unresolved("marshalMap: entry loop not found")
 		} else {
-			seq := writeSeq(info, loop.Body, "buf")
+			seq := writeSeqP(p, info, loop.Body, "buf", 0)
 			want := "size(itemLen) bytes(item) size(itemLen) bytes(item)"
 			r.Check(strings.Join(seq, " ") == want, loop, "marshalMap entry framing", strings.Join(seq, " "), "a map entry is framed as `"+strings.Join(seq, " ")+"`, not [size][key][size][value]")
 			// key marshalled with Key type first, value with Elem type second
@@ -788,7 +820,7 @@ func c12r5(p *Program, r *Report) {
 				return true
 			}
 			n++
-			seq := writeSeq(info, loop.Body, "buf")
+			seq := writeSeqP(p, info, loop.Body, "buf", 0)
 			var rest []string
 			nulls := 0
 			for _, it := range seq {
@@ -814,7 +846,7 @@ func c12r5(p *Program, r *Report) {
 				return true
 			}
 			n++
-			seq := writeSeq(info, loop.Body, "buf")
+			seq := writeSeqP(p, info, loop.Body, "buf", 0)
 			r.Check(strings.Join(seq, " ") == "lenbytes(data)", loop, fmt.Sprintf("marshalUDT loop %d field framing in declaration order", n), strings.Join(seq, " "), "a UDT field is framed as `"+strings.Join(seq, " ")+"`, not one [bytes] per declared field in order")
 			return true
 		})
@@ -1305,4 +1337,37 @@ func c12r7(p *Program, r *Report) {
 				"the length of a negative value is derived from n.BitLen() alone and no redundant leading 0xff is stripped: no function of bitlen(|n|) is minimal for both -2^(8k-1) and its neighbours, so e.g. -128 or -32768 is one byte too long")
 		}
 	}
+}
+
+func subst2(buf string, subst map[string]string) string {
+	for k, v := range subst {
+		if v == buf {
+			return k
+		}
+	}
+	return buf
+}
+
+// substIdents replaces whole identifiers of s according to subst.
+func substIdents(s string, subst map[string]string) string {
+	var sb strings.Builder
+	i := 0
+	for i < len(s) {
+		if isIdentChar(s[i]) && (i == 0 || !isIdentChar(s[i-1]) && s[i-1] != '.') {
+			j := i
+			for j < len(s) && isIdentChar(s[j]) {
+				j++
+			}
+			if v, ok := subst[s[i:j]]; ok {
+				sb.WriteString(v)
+			} else {
+				sb.WriteString(s[i:j])
+			}
+			i = j
+			continue
+		}
+		sb.WriteByte(s[i])
+		i++
+	}
+	return sb.String()
 }
